@@ -382,6 +382,8 @@ def check_aborts(ctx):
 
 
 def check(ctx):
+    from . import c04 as _c04b
+    _c04b.check_scratch_reset(ctx)   # a write that was reported as failed is not applied by a later group
     from . import c17 as _c17
     _c17.check_current(ctx)        # a failure is not reported after the CURRENT switch took effect (the caller would delete the live MANIFEST)
     check_status_not_overwritten(ctx)
